@@ -43,7 +43,6 @@ def fixedEnterRangeLiteral : String := "func (s *RelationshipPatternVisitor) Ent
 def oldExitNotExpression : String := "func (s *ExpressionVisitor) ExitOC_NotExpression(ctx *parser.OC_NotExpressionContext) { if len(ctx.AllNOT()) > 0 { visitor := s.ctx.Exit().(*NegationVisitor) s.Expression = visitor.Negation } } func (s *JoiningVisitor) ExitOC_NotExpression(ctx *parser.OC_NotExpressionContext) { if len(ctx.AllNOT()) > 0 { visitor := s.ctx.Exit().(*NegationVisitor) s.Joined.Add(visitor.Negation) } }"
 def fixedExitNotExpression : String := "func (s *ExpressionVisitor) ExitOC_NotExpression(ctx *parser.OC_NotExpressionContext) { if len(ctx.AllNOT()) > 0 { visitor := s.ctx.Exit().(*NegationVisitor) s.Expression = nestNegations(visitor.Negation, len(ctx.AllNOT())) } } func (s *JoiningVisitor) ExitOC_NotExpression(ctx *parser.OC_NotExpressionContext) { if len(ctx.AllNOT()) > 0 { visitor := s.ctx.Exit().(*NegationVisitor) s.Joined.Add(nestNegations(visitor.Negation, len(ctx.AllNOT()))) } }"
 def oldFormatNegationOperand : String := "if err := s.writeOperand(output, typedExpression.Expression, 4); err != nil { return err }"
-def fixedFormatNegationOperand : String := "if err := s.writeOperand(output, typedExpression.Expression, 3); err != nil { return err }"
 def oldEnterPropertyLookupOfPropertyExpression : String := "<missing>"
 def fixedEnterPropertyLookupOfPropertyExpression : String := "func (s *PropertyExpressionVisitor) EnterOC_PropertyLookup(ctx *parser.OC_PropertyLookupContext) { if s.numLookups++; s.numLookups > 1 { s.newUnsupportedRuleError(ctx) } }"
 def oldNewTokenLiteralIterator : String := "func newTokenLiteralIterator(astNode TokenProvider) *tokenLiteralIterator { var tokens []string for idx := 0; idx < astNode.GetChildCount(); idx++ { nextChild := astNode.GetChild(idx) if terminalNode, typeOK := nextChild.(*antlr.TerminalNodeImpl); typeOK { formattedTerminalNodeText := strings.TrimSpace(terminalNode.GetText()) if len(formattedTerminalNodeText) > 0 { tokens = append(tokens, formattedTerminalNodeText) } } } return &tokenLiteralIterator{ tokens: tokens, index: 0, } }"
